@@ -1,7 +1,8 @@
 ---------------------------- MODULE MC_Transmission ----------------------------
 (* Bounded instance of Transmission: lines of 1..3 spans over three span losses (below, inside and above the     *)
 (* band where the power rule is flat), every sweep over {-2, 0, 2, 4} without repetition of up to four steps in   *)
-(* any order (ascending, descending, starting or not at 0, saturating at +4), single steps, both modes.          *)
+(* any order (ascending, descending, starting or not at 0, saturating at +4), single steps, both modes, amplifier  *)
+(* models with and without the automatic output VOA (three-span lines: sweeps of up to three steps).             *)
 EXTENDS Transmission
 
 Losses == {14, 20, 28}
@@ -10,4 +11,6 @@ Offsets == {-2, 0, 2, 4}
 Inj(n) == {s \in [1..n -> Offsets] : \A i, j \in 1..n : i # j => s[i] # s[j]}
 MCRanges == UNION {Inj(n) : n \in 1..4}
 MCModes == BOOLEAN
+MCAutoVoas == BOOLEAN
+MCInit == Init /\ (Len(line) = 3 => Len(range) <= 3)
 ==============================================================================
